@@ -236,6 +236,8 @@ func c08textPlain(s c08func, name, form string) string {
 		out.WriteString("lp:\n  %lpv = landingpad { i8*, i32 } cleanup\n  resume { i8*, i32 } %lpv\n")
 	}
 	out.WriteString("}\n")
+	// a declaration with the same parameter list (declarations number their unnamed parameters too)
+	fmt.Fprintf(&out, "declare i32 @decl.%s(%s)\n", name, strings.Join(ps, ", "))
 	// the addresses of all blocks but the entry (whose address cannot be taken), so that the
 	// binding of %N / %name BLOCK references from outside the body is observable.
 	// (LLVM only reads numeric block labels in a blockaddress that precedes the function.)
@@ -265,6 +267,18 @@ func c08build(m *ir.Module, env *c08env, s c08func, name string) *ir.Func {
 		user = m.NewFunc("ba."+name, types.Void)
 	}
 	f := m.NewFunc(name, types.I32, params...)
+	{
+		// the declaration with the same parameter list
+		var dps []*ir.Param
+		for i, named := range s.Params {
+			pn := ""
+			if named {
+				pn = fmt.Sprintf("p%d", i)
+			}
+			dps = append(dps, ir.NewParam(pn, types.I32))
+		}
+		m.NewFunc("decl."+name, types.I32, dps...)
+	}
 	if s.usesInvoke() {
 		f.Personality = constant.NewBitCast(env.pers, types.I8Ptr)
 	}
@@ -634,8 +648,71 @@ func c08funcBatch(c *fw.Check, shapes []c08func, base int) {
 			}
 		}
 		c.Valid(int64(len(shapes)))
+		// every printer entry point below the module as the FIRST print of a freshly parsed module:
+		// Func.LLString, Block.LLString and Instruction/Terminator.LLString must give exactly the
+		// lines the module print gives (nothing may rely on Module.String having numbered first).
+		if m2, e2, p2 := parseTry(texts[form]); e2 == "" && p2 == "" {
+			for _, f := range m2.Funcs {
+				var fs string
+				if p := fw.Try(func() { fs = f.LLString() }); p != "" {
+					c.Violation("first-print/func-panics/"+form, c08case{Form: form, What: "Func.LLString as first print of a parsed module panics: " + p, Text: f.Name()})
+					break
+				}
+				if !strings.Contains(printed, fs+"\n") {
+					c.Violation("first-print/func-differs/"+form+"/"+c08declOrDef(f), c08case{Form: form, What: "Func.LLString as the first print of a freshly parsed module differs from the function as the module print shows it", Text: fs, Got: fw.Trunc(c08segment(printed, f.Name()), 1500)})
+					break
+				}
+			}
+		}
+		if m3, e3, p3 := parseTry(texts[form]); e3 == "" && p3 == "" {
+		outer:
+			for _, f := range m3.Funcs {
+				for _, b := range f.Blocks {
+					var lines []string
+					if p := fw.Try(func() {
+						lines = append(lines, b.LLString())
+						for _, in := range b.Insts {
+							lines = append(lines, "\t"+in.LLString()+"\n")
+						}
+						lines = append(lines, "\t"+b.Term.LLString())
+					}); p != "" {
+						c.Violation("first-print/block-panics/"+form, c08case{Form: form, What: "Block/Instruction.LLString as first print of a parsed module panics: " + p, Text: f.Name()})
+						break outer
+					}
+					for _, l := range lines {
+						if !strings.Contains(printed, l) {
+							c.Violation("first-print/block-or-inst-differs/"+form, c08case{Form: form, What: "Block/Instruction/Terminator.LLString as the first print of a freshly parsed module is not what the module print shows", Text: l, Got: fw.Trunc(c08segment(printed, f.Name()), 1500)})
+							break outer
+						}
+					}
+				}
+			}
+		}
 	}
 	// built through the API.
+	{
+		// Func.LLString as the first print of an API-built module.
+		mf, envf := c08newModule()
+		mr, envr := c08newModule()
+		for i, s := range shapes {
+			c08build(mf, envf, s, fmt.Sprintf("f%d", base+i))
+			c08build(mr, envr, s, fmt.Sprintf("f%d", base+i))
+		}
+		var whole string
+		if p := fw.Try(func() { whole = mr.String() }); p == "" {
+			for _, f := range mf.Funcs {
+				var fs string
+				if p := fw.Try(func() { fs = f.LLString() }); p != "" {
+					c.Violation("first-print/func-panics/api", c08case{Form: "api", What: "Func.LLString as first print of an API-built module panics: " + p, Text: f.Name()})
+					break
+				}
+				if !strings.Contains(whole, fs+"\n") {
+					c.Violation("first-print/func-differs/api/"+c08declOrDef(f), c08case{Form: "api", What: "Func.LLString as the first print of an API-built module differs from the function as the module print shows it", Text: fs, Got: fw.Trunc(c08segment(whole, f.Name()), 1500)})
+					break
+				}
+			}
+		}
+	}
 	m, env := c08newModule()
 	for i, s := range shapes {
 		c08build(m, env, s, fmt.Sprintf("f%d", base+i))
@@ -714,6 +791,28 @@ func c08funcBatch(c *fw.Check, shapes []c08func, base int) {
 		}
 		c.Valid(int64(len(shapes)))
 	}
+}
+
+func c08declOrDef(f *ir.Func) string {
+	if len(f.Blocks) == 0 {
+		return "declaration"
+	}
+	return "definition"
+}
+
+// c08segment returns the lines of a printed module that mention the function name.
+func c08segment(printed, name string) string {
+	i := strings.Index(printed, name+"(")
+	if i < 0 {
+		return ""
+	}
+	j := strings.LastIndex(printed[:i], "\n") + 1
+	k := strings.Index(printed[i:], "\n}\n")
+	d := strings.Index(printed[i:], "\n")
+	if strings.HasPrefix(printed[j:], "declare") || k < 0 {
+		return printed[j : i+d]
+	}
+	return printed[j : i+k+3]
 }
 
 // ---- module shapes -------------------------------------------------------------------------------
